@@ -5,6 +5,7 @@
 -/
 import XgiModel.Proto
 import XgiModel.C10.Convert
+import XgiModel.C10.DataframeSC
 open Lean Xgi.Proto
 
 namespace Xgi.C10.Drive
@@ -174,6 +175,10 @@ def handleNet (f : String) (j : Json) (src : ANet ⊕ ADiNet) : Json :=
   | "dataframe", .inl a =>
     let rows := toDataframe a.net
     ok (pairsJson rows) (aNetJson (bare (fromDataframe rows)))
+  | "dataframe_sc", .inl a =>
+    -- read back with create_using=SimplicialComplex (from_bipartite_pandas_dataframe / SimplicialComplex(df))
+    let rows := toDataframe a.net
+    ok (pairsJson rows) (aNetJson (fromDataframeSC rows) [("kept", natJson (keptCount (bare (fromDataframe rows))))])
   | "hypergraph_dict", .inl a =>
     match (getStr? j "nodetype").bind uncast?, (getStr? j "edgetype").bind uncast? with
     | some un, some ue =>
